@@ -5,6 +5,7 @@ package lockedfile
 import (
 	"bytes"
 	"errors"
+	"os"
 
 	rt "github.com/rogpeppe/go-internal/internal/verifrt"
 	"github.com/rogpeppe/go-internal/internal/verifrt/vfs"
@@ -127,4 +128,49 @@ func VerifC07TransformFault() {
 		}
 	}
 	rt.Assert(fsys.OpenHandles(vPath) == 0, "no-descriptor-left-open")
+}
+
+// VerifC07NothingBeforeLock: until the lock request has been issued, an
+// operation must not have changed the file (another holder may still be
+// reading it): the contents at the time of the first flock call are the old
+// contents, for Write, Create, Transform and OpenFile with O_TRUNC.
+func VerifC07NothingBeforeLock() {
+	L := rt.Param("L", 3)
+	old := rt.Bytes(rt.IntRange(1, L))
+	fsys := vSetup(append([]byte{}, old...))
+	var atLock []byte
+	seen := false
+	fsys.FlockFn = func(fd int, how int) error {
+		if !seen {
+			seen = true
+			atLock = append([]byte{}, fsys.File(vPath).Data...)
+		}
+		return nil
+	}
+	switch rt.IntRange(0, 3) {
+	case 0:
+		rt.Assert(Write(vPath, bytes.NewReader([]byte("n")), 0o666) == nil, "write-ok")
+		rt.Reach("write")
+	case 1:
+		f, err := Create(vPath)
+		rt.Assert(err == nil, "create-ok")
+		if err == nil {
+			f.Close()
+		}
+		rt.Reach("create")
+	case 2:
+		err := Transform(vPath, func(b []byte) ([]byte, error) { return []byte("n"), nil })
+		rt.Assert(err == nil, "transform-ok")
+	case 3:
+		f, err := OpenFile(vPath, os.O_WRONLY|os.O_TRUNC, 0o666)
+		rt.Assert(err == nil, "openfile-ok")
+		if err == nil {
+			f.Close()
+		}
+	}
+	rt.Assert(seen, "lock-requested")
+	rt.Assert(len(atLock) == len(old), "contents-untouched-until-lock-requested-length")
+	if len(atLock) == len(old) {
+		rt.Assert(rt.BytesEq(atLock, old), "contents-untouched-until-lock-requested")
+	}
 }
